@@ -234,3 +234,5 @@ Proof.
   - inversion H; subst. apply PLAIN_quiet; try reflexivity. apply dsub_refl.
   - inv_binds H. inversion H; subst. apply PLAIN_quiet; try reflexivity. apply dsub_refl.
 Qed.
+
+Print Assumptions step_plain.
